@@ -910,6 +910,10 @@ class Engine:
         while True:
             self.stats["feas_checks"] += 1
             r = sol.check()
+            if r == z3.unknown:
+                sol.set("timeout", 10 * self.check_timeout_ms)  # a loaded machine must not change the case split
+                r = sol.check()
+                sol.set("timeout", self.check_timeout_ms)
             if r == z3.unsat:
                 break
             if r != z3.sat:
